@@ -254,6 +254,22 @@ class SimClock:
 # install / uninstall
 # --------------------------------------------------------------------------- #
 
+
+def _dead_rmtree(path, *a, **k):
+    if str(path).startswith("/sim/"):
+        return None
+    return real_shutil.rmtree(path, *a, **k)
+
+
+def _dead_listdir(path="."):
+    if str(path).startswith("/sim"):
+        return ["."]
+    return real_os.listdir(path)
+
+
+_DEAD_SHUTIL = Proxy(real_shutil, rmtree=_dead_rmtree)
+_DEAD_OS = Proxy(real_os, listdir=_dead_listdir)
+
 _REAL = {}
 
 
@@ -292,6 +308,11 @@ class Env:
         for (module, name), value in _REAL.items():
             setattr(module, name, value)
         _REAL.clear()
+        # Finalizers of spill stores created under a SimFS may run after the
+        # run is over (garbage cycles): they must never reach the real file
+        # system with a simulated path.
+        m_disk.shutil = _DEAD_SHUTIL
+        m_disk.os = _DEAD_OS
 
     def __enter__(self):
         self.install()
